@@ -1,5 +1,8 @@
+pub mod fam;
 pub mod flat;
 pub mod lat;
+pub mod mat;
+pub mod refm;
 pub mod mc;
 pub mod rep;
 
